@@ -20,6 +20,7 @@ def registry(tier):
     # ---- C01: exactly-once delivery on the two rings and the two zero-copy wrappers
     fifo("C01", "c01_atomic_1p2c_n2_k2", "quick", "AtomicMove", 2, 2, [P, C, C], "exactly_once", 2)
     fifo("C01", "c01_atomic_2p1c_n2_k1", "quick", "AtomicMove", 2, 1, [P, P, C], "exactly_once", 2)
+    fifo("C01", "c01_atomic_1p2c_n2_k0", "quick", "AtomicMove", 2, 0, [P, C, C], "exactly_once", 2)      # two dequeuers racing on an EMPTY ring
     fifo("C01", "c01_fullsync_2p1c_n2_k1", "quick", "FullSyncMove", 2, 1, [P, P, C], "exactly_once", 2)
     fifo("C01", "c01_zc_atomic_1p1c_n2_k1", "quick", "AtomicZeroCopy", 2, 1, [P, C + C], "exactly_once", 2)
     fifo("C01", "c01_zc_fullsync_1p1c_n2_k1", "quick", "FullSyncZeroCopy", 2, 1, [P, C + C], "exactly_once", 2)
